@@ -668,6 +668,7 @@ size_t derTBITDec(octet* val, size_t* len, const octet der[], size_t count,
 {
 	const octet* v;
 	size_t l;
+	size_t bits;
 	// декодировать
 	count = derDec2(&v, &l, der, count, tag);
 	if (count == SIZE_MAX)
@@ -678,6 +679,8 @@ size_t derTBITDec(octet* val, size_t* len, const octet der[], size_t count,
 	if (l < 1 || v[0] > 7 || v[0] != 0 && l == 1 ||
 		l > 1 && (v[l - 1] & ((1 << v[0]) - 1)) != 0)
 		return SIZE_MAX;
+	// битовая длина (до записи val: буферы val и der могут пересекаться)
+	bits = (l - 1) * 8 - v[0];
 	// возвратить строку
 	if (val)
 	{
@@ -689,7 +692,7 @@ size_t derTBITDec(octet* val, size_t* len, const octet der[], size_t count,
 	if (len)
 	{
 		ASSERT(memIsValid(len, O_PER_S));
-		*len = (l - 1) * 8 - v[0];
+		*len = bits;
 	}
 	return count;
 }
